@@ -166,6 +166,9 @@ type c10Ver struct {
 	Until time.Time
 	Kind  string
 	Extra string // version id of an additional, unprotected version of the same key (versioned buckets)
+	// Default: the retention comes from the bucket's default rule that was in force when the version was
+	// written (S3 stamps it on the version: later changes of the rule do not touch it)
+	Default bool
 }
 
 func (v *c10Ver) protectedFor(now time.Time, hasBypass bool) (bool, string) {
@@ -173,11 +176,15 @@ func (v *c10Ver) protectedFor(now time.Time, hasBypass bool) (bool, string) {
 		return true, "legal-hold"
 	}
 	if v.Mode != "" && v.Until.After(now) {
+		pre := ""
+		if v.Default {
+			pre = "default-"
+		}
 		if v.Mode == "COMPLIANCE" {
-			return true, "compliance"
+			return true, pre + "compliance"
 		}
 		if !hasBypass {
-			return true, "governance"
+			return true, pre + "governance"
 		}
 	}
 	return false, ""
@@ -268,8 +275,10 @@ func (c10) Exec(c *core.Case) (out *core.Outcome) {
 			if gr.Resp.OK() && xml.Unmarshal(gr.Resp.Body, &rr) == nil && rr.Mode != "" {
 				v.Mode, v.Until = rr.Mode, rr.RetainUntilDate
 			} else {
-				o.Probe("default_retention_not_applied")
-				v.Mode = ""
+				// the version was written while the rule was in force: it is under that retention, whether or not
+				// the gateway recorded it on the version (the rule itself has just been replaced, see above)
+				o.Probe("default_retention_not_recorded_on_the_version")
+				v.Default = true
 			}
 		} else {
 			res := root.Do(s3c.PutObject(bkt, key, data))
@@ -489,7 +498,7 @@ func (c10) Exec(c *core.Case) (out *core.Outcome) {
 				c10Refresh(e, bkt, tv, p.Versioned)
 				continue
 			}
-			if pr.why == "governance" && unjudgedGov {
+			if strings.HasSuffix(pr.why, "governance") && unjudgedGov {
 				c10Refresh(e, bkt, tv, p.Versioned)
 				continue
 			}
@@ -503,7 +512,11 @@ func (c10) Exec(c *core.Case) (out *core.Outcome) {
 				capClass = "caller-with-bypass-permission"
 			}
 			sig := fmt.Sprintf("C10/%s/%s/%s/versioned=%v", op.Kind, pr.why, capClass, p.Versioned)
-			if op.Kind == "copy" || op.Kind == "complete" {
+			if strings.HasPrefix(pr.why, "default-") {
+				// one root cause whatever the operation and the symptom: a default rule is evaluated from the
+				// bucket's current configuration instead of being recorded on the version
+				sig = "C10/bucket-default-retention-not-kept/" + pr.why + "/protection-defeated"
+			} else if op.Kind == "copy" || op.Kind == "complete" {
 				// one root cause: these two operations never consult the lock; whatever the symptom
 				sig += "/protection-defeated"
 			}
@@ -584,7 +597,10 @@ func c10Refresh(e *env.Env, bkt string, v *c10Ver, versioned bool) {
 	}
 	if mode, until, ok := c10GetRetention(e, bkt, v, versioned); ok {
 		v.Mode, v.Until = mode, until
-	} else {
+		v.Default = false
+	} else if !v.Default {
+		// (a retention that came from the bucket's default rule stays in the model: the gateway does not
+		// record it on the version)
 		v.Mode = ""
 	}
 }
